@@ -81,6 +81,9 @@ pub enum Op {
     Rst,
     /// close + build + init_lazy
     RstLazy,
+    /// close, cut the highest-id blob inside its last record header (or inside the blob header
+    /// if it holds no record) so that the next start quarantines it, build + init
+    DamageRst,
 }
 
 impl Op {
@@ -258,6 +261,9 @@ pub struct World<K: HKey> {
     /// number of operations applied so far (labels values)
     pub op_seq: u64,
     pub label_prefix: String,
+    /// blob snapshot taken by the last restart op between close (+ harness damage) and init
+    pub restart_snapshot: Option<BTreeMap<String, Vec<u8>>>,
+    pub snapshot_restarts: bool,
 }
 
 pub fn builder(dir: &Path, cfg: &WCfg) -> Builder {
@@ -281,9 +287,17 @@ pub fn builder(dir: &Path, cfg: &WCfg) -> Builder {
     }
     match cfg.bloom {
         BloomCfg::None => {}
-        BloomCfg::Default => b = b.set_filter_config(BloomConfig::default()),
-        BloomCfg::Bits(n) => {
+        BloomCfg::Default => {
+            // the default configuration scaled to 1000 elements (62k bits instead of 8M)
             let mut c = BloomConfig::default();
+            c.elements = 1000;
+            b = b.set_filter_config(c);
+        }
+        BloomCfg::Bits(n) => {
+            // elements / rate chosen so that the filter has exactly n bits (23 <= n <= 500k)
+            let mut c = BloomConfig::default();
+            c.elements = 8;
+            c.preferred_false_positive_rate = 1e-9;
             c.max_buf_bits_count = n;
             b = b.set_filter_config(c);
         }
@@ -313,6 +327,8 @@ impl<K: HKey> World<K> {
             storage: None,
             op_seq: 0,
             label_prefix: String::new(),
+            restart_snapshot: None,
+            snapshot_restarts: false,
         };
         w.init(lazy).await?;
         Ok(w)
@@ -427,6 +443,16 @@ impl<K: HKey> World<K> {
                     return Outcome::Res(Res::Err, format!("close: {e:#}"));
                 }
                 res(self.init(op == Op::RstLazy).await)
+            }
+            Op::DamageRst => {
+                if let Err(e) = self.close().await {
+                    return Outcome::Res(Res::Err, format!("close: {e:#}"));
+                }
+                crate::blobfile::damage_highest_blob(&self.dir, Self::key_len());
+                if self.snapshot_restarts {
+                    self.restart_snapshot = Some(crate::tap::snapshot_blobs(&self.dir));
+                }
+                res(self.init(false).await)
             }
         }
     }
